@@ -3,11 +3,17 @@ package c04
 
 import (
 	"fmt"
+	"math/rand"
 	"strings"
 	"testing"
+	"testing/synctest"
 	"time"
 
+	"github.com/aptpod/iscp-go/message"
+
 	"verif/harness/downlib"
+	"verif/harness/memnet"
+	"verif/harness/reconlib"
 	"verif/harness/vrun"
 )
 
@@ -70,3 +76,121 @@ func TestC04Acks(t *testing.T) {
 		return r
 	})
 }
+
+// TestC04AcksAcrossResume: exactly-once acknowledgement across a transport failure and the resume of the stream, judged at
+// the transport boundary.
+func TestC04AcksAcrossResume(t *testing.T) {
+	e := vrun.LoadEnv()
+	meta := vrun.Meta{Property: "C04", Workload: "TestC04AcksAcrossResume", Total: e.Pick(150, 15000),
+		Rule:        "virtual time (the C05 scenario engine): 1-2 downstreams fed one chunk every 10 ms and read continuously, ack flush interval 20 ms, 1-2 transport failures at message boundaries (before/after the n-th DownstreamChunk, DownstreamChunkAck, ping) in 4 failure modes so that results are pending when the link dies. Oracle at the transport boundary over all link incarnations: every chunk ReadDataPoints returned appears in exactly one DownstreamChunkAck whose transport Write returned nil (an ack whose Write failed acknowledged nothing and its results must come again after the resume); streams reported closed are exempt. non-trivial = a fault fired, the stream resumed and >= 10 chunks were consumed; distinct = fault positions",
+		Assumptions: []string{"an ack written successfully into a link that silently swallows data (read-EOF / blackhole modes) counts as sent: the client cannot know more"}}
+	vrun.Loop(t, meta, 0, func(c *vrun.Case) vrun.Result {
+		r := c.Rng
+		s := reconlib.Scenario{PingMs: 200, Storage: "payload", WritesB: 1, DuringWrites: 1}
+		s.Ups = []reconlib.UpSpec{{QoS: "unreliable", Flush: "immediate", Writes: 3}}
+		for i := 1 + r.Intn(2); i > 0; i-- {
+			s.Downs = append(s.Downs, reconlib.DownSpec{QoS: []string{"reliable", "partial", "unreliable"}[r.Intn(3)]})
+		}
+		for i := 1 + r.Intn(2); i > 0; i-- {
+			cls := [][2]any{{memnet.S2C, "DownstreamChunk"}, {memnet.C2S, "DownstreamChunkAck"}, {memnet.S2C, "DownstreamChunkAckComplete"}, {memnet.C2S, "Ping"}}[r.Intn(4)]
+			s.Faults = append(s.Faults, reconlib.Fault{Trigger: memnet.Trigger{Dir: cls[0].(memnet.Dir), Class: cls[1].(string), Ordinal: 1 + r.Intn(8), After: r.Intn(2) == 0,
+				Mode: []memnet.Mode{memnet.Sever, memnet.WFail, memnet.REOF, memnet.Blackhole}[r.Intn(4)]}, DialDelayMs: []int{0, 1, 300}[r.Intn(3)]})
+		}
+		var res vrun.Result
+		ok, dump := vrun.Watchdog(120*time.Second, func() {
+			func() {
+				defer func() {
+					if rr := recover(); rr != nil {
+						if res.Verdict == "" {
+							res = vrun.Inconcl(fmt.Sprint("bubble aborted: ", rr))
+						} else if res.Note == "" {
+							res.Note = fmt.Sprint("bubble end: ", rr)
+						}
+					}
+				}()
+				synctest.Test(c.T, func(t *testing.T) { res = judgeAcross(reconlib.Run(s)) })
+			}()
+		})
+		if !ok {
+			res = vrun.Inconcl("real-time watchdog fired")
+			res.Witness = map[string]any{"dump_head": dump[:min(len(dump), 3000)]}
+		}
+		res.Desc = s
+		return res
+	})
+}
+
+func judgeAcross(o *reconlib.Outcome) vrun.Result {
+	if len(o.Downs) != len(o.S.Downs) {
+		return vrun.Inconcl("streams could not be opened")
+	}
+	if o.FaultsFired == 0 || !o.Recovered {
+		x := vrun.Hold("nofault", false)
+		x.Note = "no fault fired or no recovery"
+		return x
+	}
+	judged, consumedTotal := 0, 0
+	resumed := false
+	for i, d := range o.Downs {
+		reported := d.ReadStreamClosed
+		for _, e := range d.ClosedErrs {
+			if e != "" {
+				reported = true
+			}
+		}
+		if reported || d.CloseErr != "" {
+			continue
+		}
+		if d.Resumed > 0 {
+			resumed = true
+		}
+		okAcks := map[uint32]int{}
+		failedAcks := map[uint32]int{}
+		for _, li := range o.LinkInfos {
+			for _, r := range li.Log {
+				ack, isAck := r.Msg.(*message.DownstreamChunkAck)
+				if !isAck || r.Dir != memnet.C2S || ack.StreamIDAlias != d.Alias {
+					continue
+				}
+				for _, rs := range ack.Results {
+					if r.OK {
+						okAcks[rs.SequenceNumberInUpstream]++
+					} else {
+						failedAcks[rs.SequenceNumberInUpstream]++
+					}
+				}
+			}
+		}
+		consumed := map[uint32]int{}
+		for _, sq := range d.Consumed {
+			consumed[sq]++
+		}
+		for sq, n := range consumed {
+			if okAcks[sq] < n {
+				return vrun.Violation("a chunk returned by ReadDataPoints was never acknowledged in an ack that the transport accepted (its result was lost with the failed link)", "ack-lost-across-resume",
+					map[string]any{"downstream": i, "qos": d.Spec.QoS, "seq": sq, "acks_written_ok": okAcks[sq], "acks_whose_write_failed": failedAcks[sq], "resumed_events": d.Resumed})
+			}
+			if okAcks[sq] > n {
+				return vrun.Violation("a chunk returned by ReadDataPoints was acknowledged more than once across the resume", "ack-duplicated-across-resume",
+					map[string]any{"downstream": i, "seq": sq, "acks_written_ok": okAcks[sq]})
+			}
+		}
+		for sq := range okAcks {
+			if consumed[sq] == 0 {
+				return vrun.Violation("an acknowledgement names a chunk that ReadDataPoints never returned", "ack-for-unconsumed-across-resume", map[string]any{"downstream": i, "seq": sq})
+			}
+		}
+		judged++
+		consumedTotal += len(d.Consumed)
+	}
+	sig := ""
+	for _, f := range o.S.Faults {
+		sig += fmt.Sprintf("%s-%s#%d-%v-%s|", f.Trigger.Dir, f.Trigger.Class, f.Trigger.Ordinal, f.Trigger.After, f.Trigger.Mode)
+	}
+	x := vrun.Hold(sig, judged > 0 && resumed && consumedTotal >= 10)
+	x.Stat("chunks_consumed_across_outages", int64(consumedTotal))
+	x.Stat("streams_judged_across_resume", int64(judged))
+	return x
+}
+
+var _ = rand.Int
